@@ -85,7 +85,7 @@ func (vc *VC) doAppend(fr *Frame, st *State, x *ssa.Call, args []*Val) *Val {
 	if t.KLen > 0 && t.KLen <= 4 {
 		hin = h
 		for i := 0; i < t.KLen; i++ {
-			hin = fmt.Sprintf("(store %s (+ (sptr %s) %s %d) %s)", hin, s.S, l, i, src(fmt.Sprint(i)))
+			hin = fmt.Sprintf("(store %s (idx (sptr %s) (+ %s %d)) %s)", hin, s.S, l, i, src(fmt.Sprint(i)))
 		}
 	} else {
 		hin = vc.fresh("Hin_"+key, "(Array Int "+es+")")
